@@ -211,9 +211,23 @@ def run_check(modname, tier, seed, replay=None):
     known_hits = Counter()
     capped = False
 
+    def witnesses():
+        # counterexamples found earlier (on the pinned tree, on reverted repairs or on
+        # seeded changes), kept as plain replayable cases and re-run on every invocation,
+        # whatever the seed
+        wd = os.path.join(VERIF, "witness", pid)
+        if os.path.isdir(wd):
+            for fn in sorted(os.listdir(wd)):
+                if fn.endswith(".json"):
+                    with open(os.path.join(wd, fn)) as fh:
+                        yield json.load(fh)["case"]
+
     def gen():
-        for i, c in enumerate(mod.cases(tier, variants)):
+        i = -1
+        for i, c in enumerate(witnesses()):
             yield i, c
+        for j, c in enumerate(mod.cases(tier, variants)):
+            yield i + 1 + j, c
 
     ctx = mp.get_context("fork")
     nproc = max(1, NPROC)
